@@ -925,7 +925,18 @@ impl Ty for std::net::Ipv6Addr {
         Shape::ByteArray(16)
     }
     fn small() -> Vec<Self> {
-        vec![[0u8; 16].into(), [0xffu8; 16].into(), std::array::from_fn::<u8, 16, _>(|i| i as u8).into()]
+        // incl. the special forms: loopback, IPv4-mapped (::ffff:a.b.c.d), IPv4-compatible, link-local, multicast
+        vec![
+            [0u8; 16].into(),
+            [0xffu8; 16].into(),
+            std::array::from_fn::<u8, 16, _>(|i| i as u8).into(),
+            std::net::Ipv6Addr::LOCALHOST,
+            std::net::Ipv4Addr::new(1, 2, 3, 4).to_ipv6_mapped(),
+            std::net::Ipv4Addr::new(127, 0, 0, 1).to_ipv6_mapped(),
+            std::net::Ipv4Addr::new(9, 8, 7, 6).to_ipv6_compatible(),
+            std::net::Ipv6Addr::new(0xfe80, 0, 0, 0, 0, 0, 0, 1),
+            std::net::Ipv6Addr::new(0xff02, 0, 0, 0, 0, 0, 0, 1),
+        ]
     }
 }
 impl Ty for std::net::IpAddr {
